@@ -2,8 +2,10 @@
 C19 — IGC.  Proved over the decoder model:
   * record parsing is total: under the parser-state invariant (35 ≤ bRecordLen; every extension
     window lies inside the B-record length and is non-empty) no index expression of parseB /
-    parseH / parseI / parseLine is out of range, for EVERY line, and every record preserves the
-    invariant (so every line sequence is safe: induction over the document);
+    parseH / parseI / parseLine is out of range, for EVERY line; every record preserves the
+    invariant (C19_parseLine_preserves); so every document — every line sequence, every byte
+    string — is decoded without a panic (C19_document_total, C19_doParse_total: induction over
+    the lines);
   * the two-digit year of HFDTE reconstructs every year of 1970..2069;
   * the civil-date ⇄ day-number functions are mutually inverse on every day of 1970-01-01 …
     2069-12-31 (36525 days, by kernel evaluation), which is what makes day / month / year /
@@ -183,6 +185,157 @@ theorem C19_parseLine_total (p : PState) (line : Bytes) (hm : Option HMatch) (in
     · split
       · exact C19_parseI_total p line
       · exact np_ok _
+
+/-! ### The invariant is preserved by every record, hence every document is decoded safely -/
+
+/-- What a successfully handled record leaves behind satisfies the invariant. -/
+def PostInv (x : Outcome R) : Prop := ∀ r, x = .ok r → Inv r.st
+
+theorem postInv_ok {p : PState} {e : Bool} (h : Inv p) : PostInv (.ok ⟨p, e⟩) := by
+  intro r hr; cases hr; exact h
+
+theorem postInv_tryE {β : Type} {x : Outcome β} {p : PState} {k : β → Outcome R} (hp : Inv p)
+    (hk : ∀ b, PostInv (k b)) : PostInv (tryE x p k) := by
+  cases x with
+  | ok b => exact hk b
+  | err e => exact postInv_ok hp
+  | panic m => intro r hr; cases hr
+
+theorem postInv_parseB (p : PState) (line : Bytes) (inv : Inv p) : PostInv (parseB p line) := by
+  unfold parseB
+  split
+  · exact postInv_ok inv
+  · refine postInv_tryE inv fun _ => postInv_tryE inv fun _ => postInv_tryE inv fun _ =>
+      postInv_tryE inv fun _ => ?_
+    have inv' : ∀ d, Inv { p with day := d } := fun d => ⟨inv.len, inv.tds, inv.lad, inv.lod⟩
+    simp only
+    split
+    all_goals
+      refine postInv_tryE (inv' _) fun _ => postInv_tryE (inv' _) fun _ => postInv_tryE (inv' _) fun _ =>
+        postInv_tryE (inv' _) fun _ => postInv_tryE (inv' _) fun _ => postInv_tryE (inv' _) fun _ =>
+        postInv_tryE (inv' _) fun _ => postInv_tryE (inv' _) fun _ => postInv_tryE (inv' _) fun _ =>
+        postInv_tryE (inv' _) fun _ => ?_
+      exact postInv_ok ⟨inv.len, inv.tds, inv.lad, inv.lod⟩
+
+theorem postInv_parseH (p : PState) (m : Option HMatch) (inv : Inv p) : PostInv (parseH p m) := by
+  unfold parseH
+  cases m with
+  | none => exact postInv_ok inv
+  | some h =>
+    have inv' : Inv { p with headers := p.headers + 1 } := ⟨inv.len, inv.tds, inv.lad, inv.lod⟩
+    simp only
+    split
+    · split
+      · exact postInv_ok inv'
+      · refine postInv_tryE inv' fun _ => postInv_tryE inv' fun _ => postInv_tryE inv' fun _ => ?_
+        exact postInv_ok ⟨inv.len, inv.tds, inv.lad, inv.lod⟩
+    · exact postInv_ok inv'
+
+theorem postInv_parseIExt (line : Bytes) (n : Nat) : ∀ (i : Nat) (p : PState), Inv p →
+    PostInv (parseIExt line n i p) := by
+  induction n with
+  | zero => intro i p inv; exact postInv_ok inv
+  | succ n ih =>
+    intro i p inv
+    unfold parseIExt
+    refine postInv_tryE inv fun start => postInv_tryE inv fun stop => ?_
+    split
+    · exact postInv_ok inv
+    · rename_i hcond
+      simp only [Bool.or_eq_true, decide_eq_true_eq, not_or, Decidable.not_not, Int.not_lt] at hcond
+      obtain ⟨hstart, hstop⟩ := hcond
+      split
+      · intro r hr; cases hr
+      · exact postInv_ok inv
+      · apply ih
+        have h1 : start.toNat = p.bRecordLen + 1 := by omega
+        have h2 : p.bRecordLen + 1 ≤ stop.toNat := by omega
+        have hl := inv.len
+        split
+        · exact ⟨by simp; omega,
+            fun h => by have := inv.tds h; simp at *; omega,
+            fun _ => by simp; omega,
+            fun h => by have := inv.lod h; simp at *; omega⟩
+        · split
+          · exact ⟨by simp; omega,
+              fun h => by have := inv.tds h; simp at *; omega,
+              fun h => by have := inv.lad h; simp at *; omega,
+              fun _ => by simp; omega⟩
+          · split
+            · exact ⟨by simp; omega,
+                fun _ => by simp; omega,
+                fun h => by have := inv.lad h; simp at *; omega,
+                fun h => by have := inv.lod h; simp at *; omega⟩
+            · exact ⟨by simp; omega,
+                fun h => by have := inv.tds h; simp at *; omega,
+                fun h => by have := inv.lad h; simp at *; omega,
+                fun h => by have := inv.lod h; simp at *; omega⟩
+
+theorem postInv_parseI (p : PState) (line : Bytes) (inv : Inv p) : PostInv (parseI p line) := by
+  unfold parseI
+  split
+  · exact postInv_ok inv
+  · refine postInv_tryE inv fun n => ?_
+    split
+    · exact postInv_ok inv
+    · exact postInv_parseIExt line _ 0 p inv
+
+/-- **Every record preserves the invariant.** -/
+theorem C19_parseLine_preserves (p : PState) (line : Bytes) (hm : Option HMatch) (inv : Inv p) :
+    PostInv (parseLine p line hm) := by
+  unfold parseLine
+  split
+  · intro r hr; cases hr
+  · exact postInv_ok inv
+  · split
+    · exact postInv_parseB p line inv
+    · split
+      · exact postInv_parseH p hm inv
+      · split
+        · exact postInv_parseI p line inv
+        · exact postInv_ok inv
+
+/-- One line of a document: no panic, and the parser state still satisfies the invariant. -/
+theorem docLine_safe (d : Doc) (line : Bytes) (hm : Option HMatch) (inv : Inv d.st) :
+    NP (docLine d line hm) ∧ ∀ d', docLine d line hm = .ok d' → Inv d'.st := by
+  unfold docLine
+  by_cases he : line.isEmpty = true
+  · simp only [he, if_true]
+    exact ⟨np_ok _, fun d' h => by cases h; exact inv⟩
+  · have hne : line ≠ [] := by intro e; rw [e] at he; simp at he
+    simp only [he, Bool.false_eq_true, if_false]
+    split
+    · have hnp := C19_parseLine_total d.st line hm inv hne
+      have hpi := C19_parseLine_preserves d.st line hm inv
+      cases hpl : parseLine d.st line hm with
+      | ok r => exact ⟨np_ok _, fun d' h => by cases h; exact hpi r hpl⟩
+      | err e => exact ⟨np_ok _, fun d' h => by cases h; exact inv⟩
+      | panic m => rw [hpl] at hnp; exact absurd hnp (by simp [NP, Outcome.isPanic])
+    · refine ⟨?_, ?_⟩
+      · repeat' split
+        all_goals exact np_ok _
+      · intro d' h
+        repeat' split at h
+        all_goals (cases h; exact inv)
+
+/-- **Every document is decoded without a panic**: for every sequence of lines (any bytes, any
+forged I records, truncated or over-long B records) and whatever the H expression matches, the
+decoder returns; the invariant holds after every line. -/
+theorem C19_document_total (hms : Bytes → Option HMatch) (lines : List Bytes) :
+    ∀ d : Doc, Inv d.st → NP (lines.foldlM (fun d line => docLine d line (hms line)) d) := by
+  induction lines with
+  | nil => intro d _; exact np_ok _
+  | cons line rest ih =>
+    intro d inv
+    rw [List.foldlM_cons]
+    obtain ⟨h1, h2⟩ := docLine_safe d line (hms line) inv
+    cases hd : docLine d line (hms line) with
+    | ok d' => exact ih d' (h2 d' hd)
+    | err e => rfl
+    | panic m => rw [hd] at h1; exact absurd h1 (by simp [NP, Outcome.isPanic])
+
+theorem C19_doParse_total (data : Bytes) (hms : Bytes → Option HMatch) : NP (doParse data hms) :=
+  C19_document_total hms _ {} inv_init
 
 /-- **The two-digit year window**: the decoder's rule (yy < 70 → 20yy, else 19yy) inverts the
 encoder's `year % 100` on every year 1970..2069. -/
